@@ -54,11 +54,12 @@ MUTANTS = [
     ("c18-no-range-check", "C18", "jointmodels.py", "                if not is_valid_cond_idx:", "                if False:", "the original defect: conditional_on range unchecked"),
     ("c18-unknown-key-accepted", "C18", "jointmodels.py", "            if len(unknown_keys) > 0:", "            if len(unknown_keys) > 1:", "a single unknown description key is accepted"),
     ("c18-data-dim-lt", "C18", "jointmodels.py", "        if data.shape[-1] != self.n_dim:", "        if data.shape[-1] < self.n_dim:", "data with too many columns accepted"),
-    ("c18-hdc-limits-len", "C18", "contours.py", "            if len(limits) != n_dim:", "            if len(limits) < n_dim:", "too many HDC limits accepted"),
+    ("c18-hdc-deltas-len", "C18", "contours.py", "                if len(deltas) != n_dim:", "                if len(deltas) < n_dim:", "too many HDC deltas accepted"),
+    ("c18-fitdesc-len", "C18", "jointmodels.py", "            if len(fit_descriptions) != self.n_dim:", "            if len(fit_descriptions) < self.n_dim:", "a fit description with too many entries accepted"),
     ("c18-pdf-nan", "C18", "jointmodels.py", "        x = np.asarray_chkfinite(x)\n        fs = np.empty_like(x)", "        x = np.asarray(x)\n        fs = np.empty_like(x)", "pdf evaluates non-finite points"),
     ("c18-slicer-kwargs", "C18", "intervals.py", "        if len(unknown_kwarg_keys) != 0:", "        if len(unknown_kwarg_keys) > 1:", "one unknown slicer option accepted"),
     ("c18-unknown-method-mle", "C18", "distributions.py", "            raise ValueError(\n                f\"Unknown fit method '{method}'. \"", "            return self._fit_mle(data)\n            raise ValueError(\n                f\"Unknown fit method '{method}'. \"", "unknown fit method silently falls back to MLE"),
-    ("c18-and-3d", "C18", "contours.py", '                "AndContour is currently only implemented for two dimensions."', '                "AndContour is currently only implemented for two dimensions."\n            ) if False else None\n        if False:\n            raise NotImplementedError(""', "AndContour accepts 3-D models"),
+    ("c18-missing-method-default", "C18", "jointmodels.py", "                    if \"method\" not in fit_descriptions[i]:\n                        raise ValueError(", "                    if \"method\" not in fit_descriptions[i]:\n                        fit_descriptions[i][\"method\"] = \"mle\"\n                    if False:\n                        raise ValueError(", "a fit description without method silently defaults to mle"),
     # ---------------- C20 ----------------
     ("c20-fmt5", "C20", "contours.py", 'fmt="%1.6f"', 'fmt="%1.5f"', "5 decimals written"),
     ("c20-delimiter", "C20", "contours.py", '        delimiter=";",', '        delimiter=",",', "rows use ',' while the header uses ';'"),
